@@ -834,6 +834,9 @@ impl DirectAddrUpdateState {
 
                 // mark run as finished
                 debug!("direct addr update done ({:?})", why);
+                // Release the reporter before signalling: the actor answers the signal
+                // with `try_run`, which gives up if the reporter is still locked.
+                drop(net_reporter);
                 run_done.send(()).await.ok();
             }
             .instrument(tracing::Span::current()),
